@@ -117,7 +117,7 @@ pub fn bij_s2(x: u128) -> u128 {
 
 // ------------------------------------------------------------------------------------------------ leaf lemmas
 
-//@ harness name=aria_leaf_a prop=C06,C01,C20 tier=quick bits=128 est=155 desc="L: crate::utils::a(x) (sum of DIFFUSE_CONSTS[i] * byte_i, carry-free multiplication trick, overflow-checked) == RFC 5794 diffusion layer A (16 XOR equations) for all 2^128 x; also A(A(x)) == x on the real code"
+//@ harness name=aria_leaf_a prop=C06,C01,C20 tier=quick bits=128 est=150 desc="L: crate::utils::a(x) (sum of DIFFUSE_CONSTS[i] * byte_i, carry-free multiplication trick, overflow-checked) == RFC 5794 diffusion layer A (16 XOR equations) for all 2^128 x; also A(A(x)) == x on the real code"
 verif_harness! {
     name: aria_leaf_a,
     bytes: 16,
@@ -131,7 +131,7 @@ verif_harness! {
     }
 }
 
-//@ harness name=aria_leaf_fo prop=C06,C01,C20 tier=quick bits=128 est=25 desc="L: crate::utils::fo(x) == A(SL1(x)) of RFC 5794 (S-boxes generated from the algebraic definition, A as XOR equations) for all 2^128 x; real multiplication-based diffusion on arbitrary S-box outputs"
+//@ harness name=aria_leaf_fo prop=C06,C01,C20 tier=quick bits=128 est=20 desc="L: crate::utils::fo(x) == A(SL1(x)) of RFC 5794 (S-boxes generated from the algebraic definition, A as XOR equations) for all 2^128 x; real multiplication-based diffusion on arbitrary S-box outputs"
 verif_harness! {
     name: aria_leaf_fo,
     bytes: 16,
@@ -142,7 +142,7 @@ verif_harness! {
     }
 }
 
-//@ harness name=aria_leaf_fe prop=C06,C01,C20 tier=quick bits=128 est=25 desc="L: crate::utils::fe(x) == A(SL2(x)) of RFC 5794 for all 2^128 x"
+//@ harness name=aria_leaf_fe prop=C06,C01,C20 tier=quick bits=128 est=20 desc="L: crate::utils::fe(x) == A(SL2(x)) of RFC 5794 for all 2^128 x"
 verif_harness! {
     name: aria_leaf_fe,
     bytes: 16,
@@ -153,7 +153,7 @@ verif_harness! {
     }
 }
 
-//@ harness name=aria_leaf_sl2 prop=C06,C01,C20 tier=quick bits=128 est=10 desc="L: crate::utils::sl2(x) == SL2(x) of RFC 5794 for all 2^128 x"
+//@ harness name=aria_leaf_sl2 prop=C06,C01,C20 tier=quick bits=128 est=15 desc="L: crate::utils::sl2(x) == SL2(x) of RFC 5794 for all 2^128 x"
 verif_harness! {
     name: aria_leaf_sl2,
     bytes: 16,
@@ -237,13 +237,13 @@ macro_rules! aria_wire {
     };
 }
 
-//@ harness name=aria128_wire_enc prop=C06,C20 tier=quick bits=256 stub=1 est=40 desc="W: Aria128::new(key).encrypt_block(b) == RFC 5794 key schedule + 12 rounds, all 2^128 keys, all blocks; fo/fe/sl2 uninterpreted (shared with the oracle), a in oracle form"
-//@ harness name=aria128_wire_dec prop=C06,C20 tier=quick bits=256 stub=1 est=45 desc="W: Aria128::new(key).decrypt_block(b) == RFC 5794 decryption (dk derived through A), all keys, all blocks; fo/fe/sl2 uninterpreted, a in oracle form"
+//@ harness name=aria128_wire_enc prop=C06,C20 tier=quick bits=256 stub=1 est=35 desc="W: Aria128::new(key).encrypt_block(b) == RFC 5794 key schedule + 12 rounds, all 2^128 keys, all blocks; fo/fe/sl2 uninterpreted (shared with the oracle), a in oracle form"
+//@ harness name=aria128_wire_dec prop=C06,C20 tier=quick bits=256 stub=1 est=35 desc="W: Aria128::new(key).decrypt_block(b) == RFC 5794 decryption (dk derived through A), all keys, all blocks; fo/fe/sl2 uninterpreted, a in oracle form"
 aria_wire!(aria128_wire_enc, aria128_wire_dec, Aria128, 16);
-//@ harness name=aria192_wire_enc prop=C06,C20 tier=quick bits=320 stub=1 est=45 desc="W: Aria192::new(key).encrypt_block(b) == RFC 5794 key schedule + 14 rounds, all 2^192 keys, all blocks; fo/fe/sl2 uninterpreted, a in oracle form"
-//@ harness name=aria192_wire_dec prop=C06,C20 tier=quick bits=320 stub=1 est=45 desc="W: Aria192::new(key).decrypt_block(b) == RFC 5794 decryption, all keys, all blocks; fo/fe/sl2 uninterpreted, a in oracle form"
+//@ harness name=aria192_wire_enc prop=C06,C20 tier=quick bits=320 stub=1 est=35 desc="W: Aria192::new(key).encrypt_block(b) == RFC 5794 key schedule + 14 rounds, all 2^192 keys, all blocks; fo/fe/sl2 uninterpreted, a in oracle form"
+//@ harness name=aria192_wire_dec prop=C06,C20 tier=quick bits=320 stub=1 est=35 desc="W: Aria192::new(key).decrypt_block(b) == RFC 5794 decryption, all keys, all blocks; fo/fe/sl2 uninterpreted, a in oracle form"
 aria_wire!(aria192_wire_enc, aria192_wire_dec, Aria192, 24);
-//@ harness name=aria256_wire_enc prop=C06,C20 tier=quick bits=384 stub=1 est=45 desc="W: Aria256::new(key).encrypt_block(b) == RFC 5794 key schedule + 16 rounds, all 2^256 keys, all blocks; fo/fe/sl2 uninterpreted, a in oracle form"
+//@ harness name=aria256_wire_enc prop=C06,C20 tier=quick bits=384 stub=1 est=35 desc="W: Aria256::new(key).encrypt_block(b) == RFC 5794 key schedule + 16 rounds, all 2^256 keys, all blocks; fo/fe/sl2 uninterpreted, a in oracle form"
 //@ harness name=aria256_wire_dec prop=C06,C20 tier=quick bits=384 stub=1 est=50 desc="W: Aria256::new(key).decrypt_block(b) == RFC 5794 decryption, all keys, all blocks; fo/fe/sl2 uninterpreted, a in oracle form"
 aria_wire!(aria256_wire_enc, aria256_wire_dec, Aria256, 32);
 
